@@ -185,6 +185,40 @@ example : (crun { role := .server } [.recv [0x0f, 0x01, 0xaa], .poll, .scid [0xa
 example : (crun { role := .server } [.scid [0xab], .recv [0x0f, 0x01, 0xaa]]).ready = false := by decide
 example : cobs { role := .server } [.scid [0xab], .recv [0x0f, 0x01, 0xaa]] = [.ok, .errTP] := by decide
 
+/-- "…otherwise the handshake fails with a transport-parameter error": in BOTH arrival orders, if the conditions
+hold both calls return `Ok`; if not, one of the two calls returns the TRANSPORT_PARAMETER_ERROR (and nothing panics). -/
+theorem failure_is_transport_parameter_error (s0 : Core) (hf : Fresh s0) (blob c : Bytes) :
+    (Authenticated s0 blob c →
+      cobs s0 [.recv blob, .scid c] = [.ok, .ok] ∧ cobs s0 [.scid c, .recv blob] = [.ok, .ok]) ∧
+    (¬ Authenticated s0 blob c →
+      Obs.errTP ∈ cobs s0 [.recv blob, .scid c] ∧ Obs.errTP ∈ cobs s0 [.scid c, .recv blob] ∧
+      (∀ o ∈ cobs s0 [.recv blob, .scid c] ++ cobs s0 [.scid c, .recv blob], o = .ok ∨ o = .errTP)) := by
+  rw [recv_then_scid_obs hf, scid_then_recv_obs hf]
+  unfold obsTlsFirst obsPktFirst Authenticated
+  cases hp : parse s0.role.peer blob with
+  | none => simp
+  | some m =>
+    by_cases hA : Authd { s0 with remote := m, initialScid := some c }
+    · have hA' : getCid m idISCID = some c ∧
+          (s0.role = .client → getCid m idODCID = some s0.odcid ∧ getCid m idRSCID = s0.retryScid) := by
+        obtain ⟨c', hc', h1, h2⟩ := hA
+        cases hc'; exact ⟨h1, h2⟩
+      simp only [hA, if_true]
+      refine ⟨fun _ => by simp, fun hn => absurd ⟨m, rfl, hA'⟩ hn⟩
+    · simp only [hA, if_false]
+      refine ⟨fun ⟨m', hm, h1, h2⟩ => ?_, fun _ => ?_⟩
+      · cases hm
+        exact absurd ⟨c, rfl, h1, h2⟩ hA
+      · simp
+
+example : ¬ Authenticated { role := .server } [0x0f, 0x01, 0xaa] [0xab] := by
+  rintro ⟨m, hm, h1, _⟩
+  have : parse .client [0x0f, 0x01, 0xaa] = some [(15, .cid [0xaa])] := by decide
+  simp only [Role.peer] at hm
+  rw [this] at hm
+  cases hm
+  revert h1; decide
+
 /-- No panic on the wire path: the first delivery of parameters and the first observed source cid never panic
 (the two `.expect("this value must be set")` of `authenticate_cids` are unreachable behind `parse_from_bytes`). -/
 theorem wire_path_no_panic (s0 : Core) (hf : Fresh s0) (blob c : Bytes) :
